@@ -41,7 +41,7 @@ func main() {
 		switch {
 		case obs == "panic":
 			r.Stat("obs.panic", 1)
-		case obs == "err":
+		case obs == "err:any":
 			r.Stat("obs.err", 1)
 		case strings.Contains(obs, "panic"):
 			r.Stat("obs.accessor-panic", 1)
